@@ -2,13 +2,13 @@ CONSTANTS
   Ids <- Ids2
   Wfs <- Wfs1
   Statuses <- St2
-  Confs <- ConfsQuick
+  Confs <- ConfsThorough
   MaxOps = 4
   DelFilters <- MenuQuick
   AllFilters <- AllFQ
-  UpHasRun <- TrueOnly
+  UpHasRun <- BOOLEAN
   UpIdle <- FOnly
-  UpStatuses <- UpStQ2
+  UpStatuses <- UpStQ
   UpIdleOps <- KeepOnly
   CountOps = FALSE
   Dev_QueueCountsDeadEntries = FALSE
